@@ -12,6 +12,7 @@ import (
 	"path/filepath"
 	"strconv"
 	"strings"
+	"syscall"
 	"sync"
 	"time"
 
@@ -125,6 +126,12 @@ func runOneServe(c svCase, tmpBase string, idx int) (sx.V, sx.V) {
 	cmd.Stderr = nil
 	in := sx.L{sx.L{sx.S(c.Key), sx.S(c.Value), sx.L{sx.I(c.Version), sx.Bool(true), sx.L{sx.I(1), sx.I(kind)}, ents, sx.Bool(c.Proto == "grpc")}}, envL, sx.Bool(c.Cert)}
 	fail := sx.L{sx.I(9), sx.I(-1), sx.I(-1), sx.I(-1), sx.I(-1), sx.S(""), sx.S(""), sx.I(0), sx.S(""), sx.I(0)}
+	// anything ever created in the plugin's socket directory is reported by the kernel, even if it is gone again at exit
+	ifd, ierr := syscall.InotifyInit1(syscall.IN_NONBLOCK | syscall.IN_CLOEXEC)
+	if ierr == nil {
+		defer syscall.Close(ifd)
+		syscall.InotifyAddWatch(ifd, dir, syscall.IN_CREATE)
+	}
 	if err := cmd.Start(); err != nil {
 		return in, fail
 	}
@@ -157,7 +164,14 @@ func runOneServe(c svCase, tmpBase string, idx int) (sx.V, sx.V) {
 		case code := <-exited:
 			// nothing may have been created in its socket directory
 			entries, _ := os.ReadDir(dir)
-			return in, sx.L{sx.I(1), sx.I(code), sx.I(-1), sx.I(-1), sx.I(-1), sx.S(""), sx.S(""), sx.I(0), sx.S(""), sx.Bool(len(entries) > 0)}
+			created := len(entries) > 0
+			if ierr == nil {
+				buf := make([]byte, 4096)
+				if k, _ := syscall.Read(ifd, buf); k > 0 {
+					created = true
+				}
+			}
+			return in, sx.L{sx.I(1), sx.I(code), sx.I(-1), sx.I(-1), sx.I(-1), sx.S(""), sx.S(""), sx.I(0), sx.S(""), sx.Bool(created)}
 		case <-time.After(3 * time.Second):
 			cmd.Process.Kill()
 			return in, fail
